@@ -289,7 +289,62 @@ def terminator_rule(repo: Repo, rep: Report, rid: str) -> None:
     rep.floor(rid, "null-terminated reader loops", nr, 5)
 
 
+def offset_pad_rule(repo: Repo, rep: Report, rid: str) -> None:
+    rep.rule(rid, "the writer pads up to a field's recorded offset in both layout modes, as the reader seeks to it in both modes: the padding write "
+                  "that mentions field.offset is not conditioned on the alignment flag")
+    fi = repo.func("types/structure.py", "StructureMetaType._write")
+    pm = {}
+    for p_ in ast.walk(fi.node):
+        for c_ in ast.iter_child_nodes(p_):
+            pm[c_] = p_
+    stream = fi.node.args.args[1].arg
+    pads = [c for c in walk_body(fi.node.body) if isinstance(c, ast.Call) and call_name(c) == "write" and norm(c.func.value) == stream and "field.offset" in norm(c)]
+    if not pads:
+        rep.fail(rid, f"{fi.key}:offset-pad", "the writer no longer pads up to field.offset at all", fi.loc())
+        return
+    for c in pads:
+        conds = []
+        p_ = pm.get(c)
+        child = c
+        while p_ is not None and p_ is not fi.node:
+            if isinstance(p_, ast.If) and any(child is s2 or any(child is y for y in ast.walk(s2)) for s2 in p_.body):
+                conds.append(norm(p_.test))
+            child = p_
+            p_ = pm.get(p_)
+        bad = [t for t in conds if "align" in t.lower()]
+        rep.check(not bad, rid, f"{fi.key}:{short(c, 60)}", f"padding to the recorded offset happens under {conds}",
+                  f"padding up to field.offset only happens under {bad}: a packed structure with an explicit field offset (add_field(..., offset=12)) is "
+                  f"dumped shorter than its size and later fields land at the wrong position, while the reader still seeks to the offset", fi.loc(c))
+    rd = repo.func("types/structure.py", "StructureMetaType._read")
+    rstream = rd.node.args.args[1].arg
+    starts = {norm(s2.targets[0]) for s2 in rd.node.body if isinstance(s2, ast.Assign) and norm(s2.value) == f"{rstream}.tell()"}
+    seeks = [s2 for s2 in walk_body(rd.node.body) if isinstance(s2, ast.If) and "field.offset is not None" in norm(s2.test)
+             and any(st_ in {x.id for x in ast.walk(s2.test) if isinstance(x, ast.Name)} for st_ in starts)]
+    rep.check(bool(seeks) and not any("align" in norm(x.test).lower() for x in seeks), rid, f"{rd.key}:offset-seek", "the reader seeks to recorded offsets in both modes",
+              "the reader's seek to the recorded field offset is conditioned on the alignment flag", rd.loc())
+
+
+def leb128_termination_rule(repo: Repo, rep: Report, rid: str) -> None:
+    rep.rule(rid, "LEB128 writer: every path that emits output passes the termination test that consults cls.signed and the sign bit (no fast "
+                  "path may bypass it: 64..127 need two bytes when signed)")
+    fi = repo.func("types/leb128.py", "LEB128._write")
+    g = CFG(fi.node)
+    stream = fi.node.args.args[1].arg
+    term = {n.id for n in g.nodes if n.kind == "if" and f"{fi.self_name}.signed" in norm(n.ast.test) and any(
+        isinstance(c, ast.Constant) and c.value == 0x40 for c in ast.walk(n.ast.test))}
+    writes = [n for n in g.nodes if n.kind == "stmt" and any(norm(c.func.value) == stream for c in node_calls(n, "write"))]
+    rets = [n for n in g.nodes if n.kind == "stmt" and isinstance(n.ast, ast.Return)]
+    ok = bool(term) and bool(writes) and all(g.must_pass(g.entry.id, w.id, term) for w in writes + rets)
+    rep.check(ok, rid, f"{fi.key}:termination", "every emission / return is reached through the sign-aware termination test",
+              "LEB128._write can emit output without passing the termination test that looks at cls.signed and the sign bit 0x40: some values get a "
+              "non-canonical or wrong encoding (e.g. a single byte for signed 64..127 decodes as negative)", fi.loc())
+    neg = [n for n in g.nodes if n.kind == "if" and "< 0" in norm(n.ast.test) and f"not {fi.self_name}.signed" in norm(n.ast.test) and any(isinstance(x, ast.Raise) for x in n.ast.body)]
+    rep.check(bool(neg), rid, f"{fi.key}:negative-unsigned", "negative values are refused for unsigned LEB128", "negative values are no longer refused for uleb128", fi.loc())
+
+
 def run(repo: Repo, rep: Report, tier: str) -> None:
+    offset_pad_rule(repo, rep, "C02.R4")
+    leb128_termination_rule(repo, rep, "C02.R5")
     padding_rule(repo, rep, "C02.R1")
     flush_rule(repo, rep, "C02.R2")
     terminator_rule(repo, rep, "C02.R3")
